@@ -83,7 +83,7 @@ def neutral(v):
             else:
                 fs.append(neutral(x))
         return {"m": type(v).__name__, "f": fs}
-    raise TypeError("value of type %s in IR" % type(v).__name__)
+    return {"x": "%s:%r" % (type(v).__name__, v)}     # a type the IR schema does not have
 
 
 def from_neutral(n):
@@ -125,6 +125,9 @@ def ndump_ascii(n):
 
 
 # ------------------------------------------------------------------ spec oracle (real code only)
+LAST = {}   # parts of the last oracle() evaluation, reused by the caller (same object only)
+
+
 def oracle(obj):
     """The property statement on the real code for one message: returns None if it
     holds, else a description.  No model involved."""
@@ -140,15 +143,54 @@ def oracle(obj):
     if not (back == obj):
         return "from_json(to_json(m)) != m (dataclass ==)"
     n0, n1 = neutral(obj), neutral(back)
+    LAST.update(obj=obj, json=j1, neutral=n0, back_neutral=n1, back=back)
     if n0 != n1:
         return "set/unset or type of some field differs after the round trip: " + first_diff(n0, n1)
     for name in ir_data_fields.field_specs(cls):
         if obj.has_field(name) != back.has_field(name):
             return "has_field(%s) differs" % name
+    w0, w1 = whiches(obj), whiches(back)
+    if w0 != w1:
+        k = next((i for i in range(min(len(w0), len(w1))) if w0[i] != w1[i]), min(len(w0), len(w1)))
+        return "which_<oneof> differs after the round trip: %r vs %r" % (w0[k:k + 1], w1[k:k + 1])
     j2 = SER(back).to_json()
     if j2 != j1:
         return "second to_json differs from the first"
     return None
+
+
+_GROUPS = {}
+
+
+def oneof_groups(cls):
+    if cls not in _GROUPS:
+        gs = []
+        for spec in ir_data_fields.field_specs(cls).values():
+            if spec.oneof and spec.oneof not in gs:
+                gs.append(spec.oneof)
+        _GROUPS[cls] = gs
+    return _GROUPS[cls]
+
+
+def whiches(obj):
+    """`which_<group>` of every node, in traversal order (the back end dispatches on it)."""
+    out = []
+    stack = [obj]
+    while stack:
+        o = stack.pop()
+        cls = type(o)
+        for g in oneof_groups(cls):
+            out.append((cls.__name__, g, getattr(o, "which_" + g)))
+        for name, spec in ir_data_fields.field_specs(cls).items():
+            if spec.is_dataclass:
+                v = getattr(o, name)
+                if v is None:
+                    continue
+                if spec.is_sequence:
+                    stack.extend(x for x in v if hasattr(type(x), "IR_DATACLASS"))
+                elif hasattr(type(v), "IR_DATACLASS"):
+                    stack.append(v)
+    return out
 
 
 def first_diff(a, b, path="$"):
@@ -181,7 +223,10 @@ def short(x):
 def header_oracle(ir):
     """In-process half of (d): header of the in-memory IR vs header of the re-read IR."""
     h1, e1 = header_generator.generate_header(ir)
-    back = SER.from_json(ir_data.EmbossIr, SER(ir).to_json())
+    if LAST.get("obj") is ir:
+        back = LAST["back"]
+    else:
+        back = SER.from_json(ir_data.EmbossIr, SER(ir).to_json())
     h2, e2 = header_generator.generate_header(back)
     if bool(e1) != bool(e2):
         return "back end errors differ: %d vs %d" % (len(e1), len(e2))
@@ -582,6 +627,9 @@ def rand_msg(r, cls, depth, stats):
         elif spec.container is ir_data_fields.FieldContainer.OPTIONAL:
             if r.random() < 0.45 or (depth <= 0 and spec.is_dataclass):
                 stats["unset"] = stats.get("unset", 0) + 1
+                if r.random() < 0.3:
+                    (later if r.random() < 0.5 else kw)[name] = None     # explicitly None
+                    stats["explicit-None"] = stats.get("explicit-None", 0) + 1
                 continue
             v = rand_single(r, spec, depth, stats)
         else:   # NONE container
@@ -766,8 +814,9 @@ class Run:
             self.count_reach(obj)
         if not self.model_ok:
             return True
-        n = neutral(obj)
-        real_json = SER(obj).to_json()
+        assert LAST.get("obj") is obj
+        n = LAST["neutral"]
+        real_json = LAST["json"]
         cls = type(obj)
 
         def on_enc(ans, real_json=real_json):
@@ -793,7 +842,7 @@ class Run:
                           found_input=False)
         self.ops.append(("ENC " + ndump(n), on_enc))
 
-        want_dec = "dec " + ndump_ascii(neutral(SER.from_json(cls, real_json)))
+        want_dec = "dec " + ndump_ascii(LAST["back_neutral"])
 
         def on_dec(ans, want=want_dec):
             if ans == want:
@@ -815,7 +864,10 @@ class Run:
                                                      expected="has_field answers agree",
                                                      theorem_or_correspondence="model_c18 HAS vs Message.has_field"),
                               found_input=False)
-        self.ops.append(("HAS " + ndump(n), on_has))
+        # has_field only looks at the root's own attributes: send the root with every set
+        # attribute replaced by a placeholder
+        shallow = {"m": n["m"], "f": [None if x is None else {"b": True} for x in n["f"]]}
+        self.ops.append(("HAS " + ndump(shallow), on_has))
         return True
 
     def count_reach(self, obj):
@@ -861,8 +913,6 @@ class Run:
             try:
                 got = SER.from_dict(cls, d)
                 real = "dec " + ndump_ascii(neutral(got))
-            except TypeError as e:
-                real = "dec none" if "in IR" not in str(e) else "dec junk"
             except Exception:  # noqa: BLE001
                 real = "dec none"
             text = json.dumps(d, ensure_ascii=False)
@@ -1185,13 +1235,15 @@ def explore(chk, tier, model_ok, schema, search_mode=False):
             chk.count()
             if why:
                 chk.violation("input", dict(rin, observed=why, expected="identical header from the re-read IR"))
-            if not search_mode:
+            if not search_mode and (not quick or n_td % 3 == 0 or os.path.basename(main) in (
+                    "importer.emb", "importer2.emb", "no_enum_traits.emb", "enum_case.emb")):
                 add_split(jid, None, main, d, dir_is_repo=True)
             # sub-messages as roots of their own (other data classes through from_json)
             if not quick or n_td % 4 == 0:
                 for t in ir.module[0].type[:3]:
                     run.message(t, jid + "#type", {"input": {"neutral": neutral(t)}})
-            run.malformed(r, ir.module[0], 6 if quick else 30)
+            if ir.module[0].type:
+                run.malformed(r, r.choice(ir.module[0].type), 6 if quick else 30)
     run.bump("testdata-accepted", n_td)
     run.flush()
     mark("testdata")
@@ -1237,9 +1289,10 @@ def explore(chk, tier, model_ok, schema, search_mode=False):
             if samples < 2 and jid.startswith("random/"):
                 chk.sample({"emb": files[main], "to_json_bytes": len(SER(ir).to_json())}, limit=4)
                 samples += 1
-            if not search_mode and (jid.startswith("feature/") or not quick or len(split_jobs) < 48):
+            if not search_mode and (jid.startswith("feature/") or not quick or len([j for j in split_jobs if j["id"].startswith("random/")]) < 6):
                 add_split(jid, files, main, materialize(files, "m%d" % len(split_jobs)))
-            run.malformed(r, ir.module[0], 4 if quick else 10)
+            run.malformed(r, r.choice(ir.module[0].type) if ir.module[0].type and r.random() < 0.7 else ir.module[0],
+                          4 if quick else 10)
         # partially processed IRs (before each front-end step): more shapes of the same classes
         if jid.startswith("feature/") or r.random() < (0.15 if quick else 0.3):
             for step in STEPS:
